@@ -41,7 +41,7 @@ def concat_ps_lemma(ctx, gs):
 class ConcatenateRows(Family):
     name = "arrayfunctions.concatenate[axis=0]"
     qualname = "npstructures.arrayfunctions:concatenate"
-    serves = ["C08"]
+    serves = ["C08", "C19"]
     assumed = ["numpy.concatenate of 1-D arrays", "numpy.cumsum = prefix sums"]
 
     def kinds(self):
@@ -131,7 +131,7 @@ class ConcatenateRows(Family):
 class LikeConstructors(Family):
     name = "arrayfunctions.zeros_like/ones_like/empty_like"
     qualname = "npstructures.arrayfunctions:zeros_like"
-    serves = ["C08"]
+    serves = ["C08", "C19"]
 
     def kinds(self):
         return ["zeros_like", "ones_like", "empty_like"]
@@ -159,7 +159,7 @@ class LikeConstructors(Family):
 class Where(Family):
     name = "arrayfunctions.where"
     qualname = "npstructures.arrayfunctions:where"
-    serves = ["C08"]
+    serves = ["C08", "C19"]
 
     def kinds(self):
         return ["ragged,ragged", "ragged,scalar", "scalar,ragged"]
@@ -248,7 +248,7 @@ class Nonzero(Family):
     """nonzero: the (row, column) coordinates of the non-zero cells in row-major (= flat) order"""
     name = "RaggedArray.nonzero"
     qualname = "npstructures.raggedarray:RaggedArray.nonzero"
-    serves = ["C08"]
+    serves = ["C08", "C19"]
     assumed = ["numpy.flatnonzero contract", "numpy.searchsorted on the sorted row starts"]
 
     def extra_functions(self):
